@@ -46,6 +46,7 @@ var (
 	ErrInvalidWarpSignature                = errors.New("invalid warp signature")
 	ErrExpiredChunkCert                    = errors.New("expired chunk certificate")
 	ErrUnexpectedChunk                     = errors.New("peer served a chunk other than the requested one")
+	ErrFutureChunkCert                     = errors.New("chunk certificate expires beyond the validity window")
 	ErrInvalidSignatureType                = errors.New("invalid signature type")
 )
 
@@ -266,10 +267,12 @@ func (n *Node[T]) BuildBlock(ctx context.Context, parent Block, timestamp int64)
 		return Block{}, err
 	}
 
+	validityWindow := n.ruleFactory.GetRules(timestamp).GetValidityWindow()
 	availableChunkCerts := make([]*ChunkCertificate, 0)
 	for i, chunkCert := range gatheredChunkCerts {
-		// avoid building blocks with duplicate or expired chunk certs
-		if chunkCert.Expiry < timestamp || duplicates.Contains(i) {
+		// avoid building blocks with duplicate or expired chunk certs, or certs that expire
+		// beyond the validity window (the replay check only looks one window back)
+		if chunkCert.Expiry < timestamp || chunkCert.Expiry > timestamp+validityWindow || duplicates.Contains(i) {
 			continue
 		}
 		availableChunkCerts = append(availableChunkCerts, chunkCert)
@@ -330,12 +333,18 @@ func (n *Node[T]) Verify(ctx context.Context, parent Block, block Block) error {
 		return err
 	}
 
+	validityWindow := n.ruleFactory.GetRules(block.Timestamp).GetValidityWindow()
 	for _, chunkCert := range block.ChunkCerts {
 		if err := chunkCert.Verify(
 			ctx,
 			n.chainState,
 		); err != nil {
 			return fmt.Errorf("%w %s: %w", ErrInvalidWarpSignature, chunkCert.ChunkID, err)
+		}
+		// The replay check looks one validity window back: a certificate that expires later than that
+		// could be referenced again once its first inclusion has left the window.
+		if chunkCert.Expiry > block.Timestamp+validityWindow {
+			return fmt.Errorf("%w %s: expiry %d > block timestamp %d + validity window %d", ErrFutureChunkCert, chunkCert.ChunkID, chunkCert.Expiry, block.Timestamp, validityWindow)
 		}
 		// a block must not reference expired chunks (BuildBlock never includes them)
 		if chunkCert.Expiry < block.Timestamp {
